@@ -54,6 +54,9 @@ type Case struct {
 	// which shares it) has switched to O_NONBLOCK after the program started - reads find EAGAIN whenever
 	// the pipe is momentarily empty.  That is not end of input.
 	NonblockStdin bool `json:"stdin_made_nonblocking_by_peer"`
+	// StdoutFull: standard output is /dev/full - every write to it fails (the downstream filestore is full).
+	// The pass-through is lost, of course; the record must be complete all the same.
+	StdoutFull bool `json:"stdout_filestore_full"`
 }
 
 // tzif builds a minimal TZif (version 1) file for a fixed offset from UTC.
@@ -180,6 +183,14 @@ func check(c Case, o *stats.Obs) error {
 	var stdout lockedBuf
 	var stderr bytes.Buffer
 	cmd.Stdout, cmd.Stderr = &stdout, &stderr
+	if c.StdoutFull {
+		if f, err := os.OpenFile("/dev/full", os.O_WRONLY, 0); err == nil {
+			defer f.Close()
+			cmd.Stdout = f
+		} else {
+			c.StdoutFull = false
+		}
+	}
 	var feed func()
 	withheld := make(chan string, 1)
 	var nbRead *os.File
@@ -284,11 +295,11 @@ func check(c Case, o *stats.Obs) error {
 		return fmt.Errorf("pass-through delayed while the input is still open: %s (len %d, chunks %v)", msg, c.Len, c.Chunks)
 	default:
 	}
-	if werr != nil {
+	if werr != nil && !c.StdoutFull {
 		o.Key = "exit-status"
 		return fmt.Errorf("rtcmlogger exited with %v; stderr: %s", werr, stderr.String())
 	}
-	if !bytes.Equal(stdout.Bytes(), input) {
+	if !c.StdoutFull && !bytes.Equal(stdout.Bytes(), input) {
 		o.Key = "stdout"
 		return fmt.Errorf("standard output differs from standard input: %s (len %d, content kind %d, pipe=%v, chunks %v)", appsup.Diff(stdout.Bytes(), input), c.Len, c.Content, c.Pipe, c.Chunks)
 	}
@@ -305,6 +316,9 @@ func check(c Case, o *stats.Obs) error {
 	o.NonTrivial = len(input) > 0
 	if len(input) > 8096 {
 		o.Class(">1-block")
+	}
+	if len(input) >= 4<<20 {
+		o.Class(">=4MiB")
 	}
 	if c.Live && c.Pipe {
 		o.Class("live-pipe")
@@ -325,6 +339,9 @@ func check(c Case, o *stats.Obs) error {
 	if c.LocalSod > 0 {
 		o.Class(fmt.Sprintf("local-time-at-start-%02d:%02d", c.LocalSod/3600, c.LocalSod/60%60))
 	}
+	if c.StdoutFull {
+		o.Class("stdout-filestore-full")
+	}
 	if c.SameDir && c.LogEvents {
 		o.Class("event-log-in-record-directory")
 	}
@@ -341,6 +358,9 @@ func gen1(t *rapid.T) Case {
 		c.Len = rapid.SampledFrom([]int{0, 1, 2, 8095, 8096, 8097, 16191, 16192, 16193, 24288}).Draw(t, "lenEdge")
 	case 1:
 		c.Len = rapid.IntRange(0, 200000).Draw(t, "lenBig")
+		if rapid.IntRange(0, 5).Draw(t, "megabytes") == 3 {
+			c.Len = rapid.SampledFrom([]int{4 << 20, 8<<20 + 17, 24 << 20}).Draw(t, "lenMB") // minutes to hours of a real feed
+		}
 	default:
 		c.Len = rapid.IntRange(0, 20000).Draw(t, "len")
 	}
@@ -364,6 +384,7 @@ func gen1(t *rapid.T) Case {
 	c.YieldSeed = rapid.IntRange(0, 1<<20).Draw(t, "yieldSeed")
 	c.RecordFull = rapid.IntRange(0, 9).Draw(t, "recordFull") == 5
 	c.SameDir = c.LogEvents && rapid.Bool().Draw(t, "sameDir")
+	c.StdoutFull = !c.Live && !c.RecordFull && rapid.IntRange(0, 7).Draw(t, "stdoutFull") == 6
 	if rapid.IntRange(0, 3).Draw(t, "localTime") == 1 {
 		c.LocalSod = rapid.SampledFrom([]int{40, 1200, 7 * 3600, 43200, 86000}).Draw(t, "localSod")
 	}
